@@ -315,6 +315,29 @@ func (w *world) sequential() {
 	simrt.ArmPreempt()
 	adds := len(fillers)
 	var touched []prefix
+	// a second filter lives in the same process (two instances must not share
+	// anything): it holds one range and has 0.0.0.0/0 switched on and off
+	other := netutil.NewIPv4Filter()
+	otherRange := prefix{u32(198, 51, 100, 0), 24}
+	otherAll := false
+	other.Add(otherRange.ipnet())
+	bystander := func(when string) {
+		switch ch("other.op", 4) {
+		case 0:
+			other.Add((prefix{0, 0}).ipnet())
+			otherAll = true
+			simrt.Probe("second_filter_matches_all")
+		case 1:
+			other.Remove((prefix{0, 0}).ipnet())
+			otherAll = false
+		}
+		for _, a := range []uint32{u32(198, 51, 100, 7), u32(203, 0, 113, 9), u32(10, 1, 2, 3)} {
+			want := otherAll || otherRange.covers(a)
+			if got := other.Contains(ip4(a)); got != want {
+				w.violate("C11", "second-filter-disturbed", fmt.Sprintf("%s: a second filter in the same process (holding %s, 0.0.0.0/0 %v) answers Contains(%s) = %v, want %v", when, otherRange, otherAll, ip4(a), got, want), "second-filter-disturbed")
+			}
+		}
+	}
 	if ch("cfg.long", 40) == 39 {
 		touched = w.longHistory()
 		adds += 300
@@ -362,6 +385,9 @@ func (w *world) sequential() {
 			if adds == 257 {
 				simrt.Probe("crossed_switch_during_run")
 			}
+		}
+		if i%3 == 0 {
+			bystander(fmt.Sprintf("after op %d", i))
 		}
 		// probe the neighbourhood of what just changed, in both forms
 		if len(touched) > 0 {
@@ -483,6 +509,21 @@ func (w *world) concurrent() {
 				w.hist = append(w.hist, fmt.Sprintf("w%d:%s(%s)@[%d,%d]", wi, map[bool]string{true: "Add", false: "Remove"}[add], p, op.inv, op.ret))
 			}
 			writersLeft--
+		})
+	}
+	// another filter of the same process has 0.0.0.0/0 switched on and off
+	// meanwhile (instances share nothing: this must not show in w.f's answers)
+	if ch("cfg.bystander", 3) == 0 {
+		simrt.Probe("second_filter_matches_all")
+		other := netutil.NewIPv4Filter()
+		simrt.GoNamed("bystander", "harness", func() {
+			for i := 0; i < 2+ch("bystander.ops", 4); i++ {
+				other.Add((prefix{0, 0}).ipnet())
+				simrt.Yield("bystander")
+				if ch("bystander.leave_on", 3) != 0 {
+					other.Remove((prefix{0, 0}).ipnet())
+				}
+			}
 		})
 	}
 	probeSet := boundaries(universe)
